@@ -162,6 +162,14 @@ def main(argv=None) -> int:
             if rc:
                 extra["selftest"]["failed"] = extra["selftest"].get("failed", 0) + 1
                 extra["selftest"].setdefault("failures", []).append("normal form differential test: " + buf.getvalue()[:400])
+            # detection regression: mutants this check is known to report, re-created from the current source
+            from . import mutref
+
+            mr = mutref.run_for(prop, args.repo)
+            extra["selftest"]["detection_regression"] = mr
+            if mr.get("failed"):
+                extra["selftest"]["failed"] = extra["selftest"].get("failed", 0) + mr["failed"]
+                extra["selftest"].setdefault("failures", []).extend("mutant no longer reported: " + x for x in mr["failures"])
         wall = time.time() - t0
         if not args.no_evidence:
             write_evidence(prop, args.tier, res, mod, ctx, wall, len(unlisted), extra)
